@@ -36,8 +36,11 @@ func c02Edits(t *rapid.T, marker, dev string) specs.ContainerEdits {
 				Options: []string{"ro"}})
 		case 2:
 			val := tok
-			if rapid.IntRange(0, 3).Draw(t, l+"multiline") == 0 {
+			switch rapid.IntRange(0, 7).Draw(t, l+"multiline") {
+			case 0, 1:
 				val = tok + "\n\nafter a blank line\n" // a value with an empty line in it
+			case 2:
+				val = tok + " 100% +%s %d%% %!v(x) %" // a value that is not a format string
 			}
 			e.Env = append(e.Env, rapid.SampledFrom([]string{"MODE", "SHARED", "MOD", "MODE_X", "SHARED2", "S"}).Draw(t, l+"var")+"="+val)
 		default:
@@ -126,6 +129,15 @@ func TestC02Rapid(t *testing.T) {
 		}
 		if cache == nil {
 			cache, _ = cdi.NewCache(cdi.WithSpecDirs(l.Paths()...), cdi.WithAutoRefresh(false))
+		}
+		// one case in three: the cache has answered a request before, one that was refused because of a name that does
+		// not resolve (placed at a drawn position among the very names requested next); the composition of the
+		// request proper must not depend on that history
+		if rapid.IntRange(0, 2).Draw(t, "refusedRequestBefore") == 0 {
+			pos := rapid.IntRange(0, len(req)).Draw(t, "unresolvableAt")
+			bad := append(append(append([]string{}, req[:pos]...), "no-such.vendor/class=nothing"), req[pos:]...)
+			_, _ = cache.InjectDevices(gen.CloneOCI(before), bad...) // what a refused request returns is C04's business
+			rec.Label("refused-request-before")
 		}
 		unresolved, ierr := cache.InjectDevices(o, req...)
 		fail := func(msg string) {
